@@ -63,15 +63,56 @@ def pmap(fn: Callable[[Any], Any], items: Sequence[Any], *, workers: int = 12, p
         for c in chunks:
             out.extend(_chunk((fn, c, per_item_s)))
         return out
+    from concurrent.futures.process import BrokenProcessPool
     ctx = mp.get_context("fork")
     out = []
+    done_chunks = 0
+    broken = False
     with ProcessPoolExecutor(max_workers=workers, mp_context=ctx) as ex:
         futs = [ex.submit(_chunk, (fn, c, per_item_s)) for c in chunks]
         try:
             for f, c in zip(futs, chunks):
                 out.extend(f.result(timeout=per_item_s * len(c) + 120))
+                done_chunks += 1
         except FutTimeout as e:
             for p in list(ex._processes.values()):
                 p.kill()
             raise MachineryError("worker chunk exceeded its hard timeout") from e
+        except BrokenProcessPool:
+            broken = True
+    if broken:
+        # a worker died (e.g. the interpreter itself crashed on a runaway recursion): redo what is left one item per
+        # process, so that the crashing item is identified and reported as {"crash": True} instead of losing the run
+        rest = [it for c in chunks[done_chunks:] for it in c]
+        import concurrent.futures as cf
+        with cf.ThreadPoolExecutor(max_workers=min(8, workers)) as tex:
+            out.extend(tex.map(lambda it: _isolated(fn, it, per_item_s), rest))
     return out
+
+
+def _isolated(fn: Callable[[Any], Any], item: Any, seconds: float) -> Any:
+    """fn(item) in a process of its own (fork); {"crash": True, ...} if that process dies."""
+    import pickle
+    r, w = os.pipe()
+    pid = os.fork()
+    if pid == 0:
+        code = 1
+        try:
+            os.close(r)
+            try:
+                resource.setrlimit(resource.RLIMIT_AS, (6 << 30, 6 << 30))
+            except Exception:
+                pass
+            data = pickle.dumps(guarded(fn, item, seconds))
+            with os.fdopen(w, "wb") as f:
+                f.write(data)
+            code = 0
+        finally:
+            os._exit(code)
+    os.close(w)
+    with os.fdopen(r, "rb") as f:
+        data = f.read()
+    _, status = os.waitpid(pid, 0)
+    if status != 0 or not data:
+        return {"crash": True, "hang": True, "err": "WorkerCrash", "out": [], "junk": "", "status": status}
+    return pickle.loads(data)
